@@ -140,6 +140,7 @@ type caseT struct {
 	Outputs  int
 	Filter   filterSpec
 	PubFails bool
+	Topic    string // the poison topic, as configured: any non-empty string, used verbatim
 }
 
 func genCase(t *rapid.T) caseT {
@@ -155,11 +156,12 @@ func genCase(t *rapid.T) caseT {
 	c.Outputs = rapid.IntRange(0, 2).Draw(t, "outputs")
 	c.Filter.Kind = rapid.IntRange(0, 9).Draw(t, "filter")
 	c.PubFails = rapid.IntRange(0, 2).Draw(t, "poisonPublishFails") == 0
+	c.Topic = rapid.SampledFrom([]string{"poison", "poison", "poison ", "\tdead letters", " poison.v2\n", "Poison", "poison/é"}).Draw(t, "poisonTopic")
 	return c
 }
 
 func (c caseT) canon() string {
-	return fmt.Sprintf("%s|%d|%q|%d|%d|%v", c.Msg.Canon(), c.Err.Kind, c.Err.Text, c.Outputs, c.Filter.Kind, c.PubFails)
+	return fmt.Sprintf("%s|%d|%q|%d|%d|%v|%q", c.Msg.Canon(), c.Err.Kind, c.Err.Text, c.Outputs, c.Filter.Kind, c.PubFails, c.Topic)
 }
 
 var errPoisonPub = stderrors.New("poison publisher down")
@@ -169,12 +171,12 @@ func newMW(t *rapid.T, c caseT, pub message.Publisher, returned error) (message.
 	var err error
 	var sf *scriptedFilter
 	if c.Filter.Kind == 0 {
-		mw, err = middleware.PoisonQueue(pub, "poison")
+		mw, err = middleware.PoisonQueue(pub, c.Topic)
 	} else if c.Filter.Kind >= 8 {
 		sf = &scriptedFilter{first: c.Filter.Kind == 8}
-		mw, err = middleware.PoisonQueueWithFilter(pub, "poison", sf.fn)
+		mw, err = middleware.PoisonQueueWithFilter(pub, c.Topic, sf.fn)
 	} else {
-		mw, err = middleware.PoisonQueueWithFilter(pub, "poison", c.Filter.fn(returned))
+		mw, err = middleware.PoisonQueueWithFilter(pub, c.Topic, c.Filter.fn(returned))
 	}
 	if err != nil {
 		t.Fatalf("constructor failed: %v", err)
@@ -184,8 +186,8 @@ func newMW(t *rapid.T, c caseT, pub message.Publisher, returned error) (message.
 
 // checkPoisonPublish verifies the content of the poison message.
 func checkPoisonPublish(t *rapid.T, c caseT, pc *lib.PubCall, eText string, topic, handler, subscriber string) {
-	if pc.Topic != "poison" {
-		t.Fatalf("violation: poison message published on %q, want %q", pc.Topic, "poison")
+	if pc.Topic != c.Topic {
+		t.Fatalf("violation: poison message published on %q, the configured poison topic is %q", pc.Topic, c.Topic)
 	}
 	if len(pc.Snaps) != 1 {
 		t.Fatalf("violation: poison Publish carried %d messages, want 1", len(pc.Snaps))
@@ -226,9 +228,9 @@ func TestPoisonStandAlone(t *testing.T) {
 			eText = e.Error() // captured now: a multierror value is extended in place when the poison publish fails
 		}
 		pub := lib.NewScriptPub("")
-		warmingUp := false
+		warmingUp, warmFails := false, false
 		pub.OnPublish = func(*lib.PubCall) error {
-			if c.PubFails && !warmingUp {
+			if (c.PubFails && !warmingUp) || (warmingUp && warmFails) {
 				return errPoisonPub
 			}
 			return nil
@@ -238,14 +240,17 @@ func TestPoisonStandAlone(t *testing.T) {
 		// producer that re-uses ids) was handled by it before, failing into the poison queue or succeeding
 		warm := 0
 		if c.Filter.Kind < 8 {
-			warm = rapid.SampledFrom([]int{0, 0, 1, 1, 2}).Draw(t, "earlierMessageWithSameUUID")
+			warm = rapid.SampledFrom([]int{0, 0, 1, 1, 2, 3, 3}).Draw(t, "earlierMessageWithSameUUID")
 		}
+		// (3 = the earlier message failed AND its poison publish failed: the publisher was down a moment ago - every message
+		// is judged by what the publisher says for it, not by what it said for another one)
+		warmFails = warm == 3
 		if warm > 0 {
 			warmingUp = true
 			wm := c.Msg.Msg()
 			wm.Payload = append([]byte("earlier:"), wm.Payload...)
 			var werr error
-			if warm == 1 {
+			if warm == 1 || warm == 3 {
 				werr = stderrors.New("earlier failure")
 			}
 			mw(func(*message.Message) ([]*message.Message, error) { return nil, werr })(wm)
